@@ -4,7 +4,7 @@
 From Coq Require Import List ZArith QArith Qcanon Bool Arith Permutation.
 From Dimod Require Import Base.Util Model.Poly Model.HPoly Model.Samples Model.Comb Model.Solve
   Proofs.CombFacts Proofs.CombGray Proofs.PolyFacts Proofs.HPolyFacts Proofs.SamplesFacts
-  Model.Feas Proofs.FeasFacts Gen.Gen_PolyScale Proofs.SolveEnum Proofs.SolveComp Proofs.SolveScale Proofs.SolveSamplers.
+  Model.Feas Proofs.FeasFacts Gen.Gen_PolyScale Gen.Gen_ExactHoc Proofs.SolveEnum Proofs.SolveComp Proofs.SolveScale Proofs.SolveSamplers.
 Import ListNotations.
 Local Open Scope nat_scope.
 
@@ -37,7 +37,7 @@ Theorem C07_dqm_cases_each_once :
     NoDup (all_cases_dqm ncases) /\
     (forall row, In row (all_cases_dqm ncases) <->
                  Forall2 (fun x n => (0 <= x < Z.of_nat n)%Z) row ncases) /\
-    Permutation (all_cases_dqm ncases) (product (map (fun n => zrange 0 (Z.of_nat n - 1)) ncases)).
+    Permutation (all_cases_dqm ncases) (product (map gen_dqm_values ncases)).
 Proof. exact dqm_cases_each_once. Qed.
 Print Assumptions C07_dqm_cases_each_once.
 
@@ -63,6 +63,17 @@ Theorem C07_cqm_integer_domain_within_bounds :
   forall (lb ub : Qc) (z : Z), In z (dom_values (DIntQ lb ub)) <-> within_bounds lb ub z.
 Proof. exact cqm_integer_domain_within_bounds. Qed.
 Print Assumptions C07_cqm_integer_domain_within_bounds.
+
+(* _all_cases_cqm as written (index product, zeros-with-a-one concatenation, the c1-empty branch,
+   the early break, the final fallback; domains generated from _iterator_by_vartype) is the
+   functional enumeration, hence lists every assignment of the search space exactly once *)
+Theorem C07_all_cases_cqm_code_eq :
+  forall (sizes : list nat) (doms : list vdom),
+    (sizes <> [] \/ doms <> []) -> Forall (fun d => 0 < d) sizes ->
+    (doms <> [] -> mesh (map dom_values doms) <> []) ->
+    all_cases_cqm_code sizes doms = all_cases_cqm sizes doms.
+Proof. exact all_cases_cqm_code_eq. Qed.
+Print Assumptions C07_all_cases_cqm_code_eq.
 
 (* the first lowest row of a complete enumeration is a global optimum of the search space *)
 Theorem C07_lowest_is_global_optimum :
@@ -156,6 +167,39 @@ Theorem C07_normalize_within_range :
       (1 < length (fst t) -> (fst pr <= k * snd t)%Qc /\ (k * snd t <= snd pr)%Qc).
 Proof. exact normalize_within_range. Qed.
 Print Assumptions C07_normalize_within_range.
+
+(* improper ranges (no zero bound): one bound on its proper side makes the factor positive, and
+   every bound on its proper side is respected; nothing is promised for the others *)
+Theorem C07_normalize_one_sided :
+  forall (lr pr : Qc * Qc) (ign : list (list label)) (p : hpoly) (k : Qc),
+    ((fst lr < 0)%Qc \/ (0 < snd lr)%Qc \/ (fst pr < 0)%Qc \/ (0 < snd pr)%Qc) ->
+    normalize_scalar lr pr ign p = Some k ->
+    (0 < k)%Qc /\
+    forall t, In t p -> ignored ign t = false ->
+      (length (fst t) = 1 ->
+         ((fst lr < 0)%Qc -> (fst lr <= k * snd t)%Qc) /\ ((0 < snd lr)%Qc -> (k * snd t <= snd lr)%Qc)) /\
+      (1 < length (fst t) ->
+         ((fst pr < 0)%Qc -> (fst pr <= k * snd t)%Qc) /\ ((0 < snd pr)%Qc -> (k * snd t <= snd pr)%Qc)).
+Proof. exact normalize_one_sided. Qed.
+Print Assumptions C07_normalize_one_sided.
+
+(* REFUTED beyond that: a range on one side of zero is not met (bias -4, range (1,2), factor 1/4),
+   and an inverted range (1,-1) yields a NEGATIVE factor - the child receives the negated
+   polynomial; the reported energies stay correct (C07_polyscale_energy_is_original needs k <> 0) *)
+Theorem C07_normalize_improper_range_refuted :
+  (exists k, normalize_scalar (qc 1 1, qc 2 1) (qc 1 1, qc 2 1) [] improper_example = Some k /\
+             exists t, In t improper_example /\ length (fst t) = 1 /\ (k * snd t < qc 1 1)%Qc) /\
+  (exists k, normalize_scalar (qc 1 1, qc (-1) 1) (qc 1 1, qc (-1) 1) [] improper_example = Some k /\ (k < 0)%Qc).
+Proof. exact normalize_improper_range_refuted. Qed.
+Print Assumptions C07_normalize_improper_range_refuted.
+
+(* a zero bound: normalize divides by it -> ZeroDivisionError, exactly when no scalar is given *)
+Theorem C07_polyscale_call_raises :
+  forall (scalar : option Qc) (lr pr : Qc * Qc) (ign : list (list label)) (p : hpoly),
+    polyscale_call scalar lr pr ign p = None <->
+    scalar = None /\ (fst lr = 0%Qc \/ snd lr = 0%Qc \/ fst pr = 0%Qc \/ snd pr = 0%Qc).
+Proof. exact polyscale_call_raises. Qed.
+Print Assumptions C07_polyscale_call_raises.
 
 Theorem C07_parse_range_number_proper :
   forall r : Qc, r <> 0%Qc ->
